@@ -708,4 +708,19 @@ def Sub.tree : Sub → Option Tree
 /-- Every directory of the stack is in the domain. -/
 def OkDirs (kx : KX) (tl : List DirT) : Prop := ∀ d ∈ tl, okTree kx d.tree = true
 
+/-! ### The node of node.go that stands for a directory of a layer tree -/
+
+def childOf (p : Str × Tree) : Child := ⟨p.1, p.2.attr.id, p.2.attr.mode, p.2.attr.rdev⟩
+
+def dirOfTree (isRoot : Bool) (base : Nat) (a : Attr) (kids : List (Str × Tree)) : Dir :=
+  ⟨isRoot, base, a.id, a.mode, a.rdev, a.xattrs, kids.map childOf⟩
+
+/-- The children `serve` works on: `serveRoot` drops the landmarks of the root first. -/
+def servedKidsOf (isRoot : Bool) (kids : List (Str × Tree)) : List (Str × Tree) :=
+  if isRoot then kids.filter fun p => !isLandmark p.1 else kids
+
+def Lower.attr : Lower → Attr
+  | .file a => a
+  | .dir a _ _ => a
+
 end SV.Overlay
